@@ -44,6 +44,20 @@ CHECKS = {
          "bytes with plain serialization, evaluates the same geometric predicates on the real rows and calls to_csv / debug "
          "under catch_unwind; row-by-row drift from the specification is noted, not alarmed.",
          "6 C18"),
+ "C13": ("model checking + conformance replay (fault schedules)",
+         "MC_Ser: the serializer machine against a sink that may reject every write_all call after any prefix of its buffer and "
+         "fail on flush (all fault positions by nondeterminism); TLC checks NoPanic, FaultIsError, OutIsPrefix, SourceIntact, "
+         "FakeBalanced in every state; every terminal state is replayed with exactly its fault (reject call n after k bytes / "
+         "flush failure) against the real serializer, for owned values, slice references, exact-size iterators and structures "
+         "holding them; the tracking allocator reports a free of the lent source block; std::io::Write sinks that split, "
+         "interrupt, return Ok(0) or fail, and store() onto /dev/full and unopenable paths are driven from the harness.",
+         "6 C13"),
+ "C16": ("model checking + conformance replay",
+         "MC_Ser over every slice / exact-size-iterator source (standalone and inside G<_>): TLC checks that the machine's output "
+         "equals the reference encoding of the corresponding vector and that a lying iterator ends in LengthMismatch(actual, "
+         "announced) for all announced lengths 0..3; replay: the real stream of the source is byte-compared with the real stream "
+         "of the vector, deserialized as the vector type in both modes, and lying iterators are replayed.",
+         "6 C16"),
 }
 
 
